@@ -54,6 +54,9 @@ func (parameters Parameters) Validate(ctx context.Context, opts ...ValidationOpt
 
 	dupes := make(map[string]struct{})
 	for _, parameterRef := range parameters {
+		if parameterRef == nil {
+			return errors.New("invalid parameter: value MUST be an object")
+		}
 		if v := parameterRef.Value; v != nil {
 			key := v.In + ":" + v.Name
 			if _, ok := dupes[key]; ok {
